@@ -89,12 +89,13 @@ func casCallbackContext(c *Ctx) (lits map[*ssa.Function]bool, ctxFns map[*ssa.Fu
 }
 
 func checkC05(c *Ctx, r *Report) {
-	r.Explain = "Decides structural necessary conditions of 'acknowledged writes are never lost / one accepted child per parent': (R1) every conflict decision (IsIllegalConflict, revTreeConflictCheck, Document.IsInConflict, the leaf test of Put) is evaluated inside the compare-and-swap callback on the document value that callback was handed (so it is re-evaluated on every CAS retry against the freshly read document), and Put accepts a client-supplied parent only on the edge where that parent is a leaf; (R2) document sync metadata is committed only through the CAS loop of updateAndReturnDoc / ResyncDocument or through writes that carry a CAS value read earlier (never the constant 0); (R3) the sequence reserved for a write survives CAS retries in variables declared outside the callback, a sequence kept from an earlier attempt is reused only when it is still greater than the document's stored sequence, otherwise a new one is allocated (above the stored one). (R4) the post-commit CAS re-stamp is issued only against the CAS the writer's own commit returned (never a CAS read afterwards), so it cannot overwrite a revision committed in between; (R5) the CAS callback carries nothing from one attempt into the next except the sequence bookkeeping and the function's named results. Not decided: that exactly one concurrent writer wins under every schedule, and that the feed ends up announcing the final revision."
+	r.Explain = "Decides structural necessary conditions of 'acknowledged writes are never lost / one accepted child per parent': (R1) every conflict decision (IsIllegalConflict, revTreeConflictCheck, Document.IsInConflict, the leaf test of Put) is evaluated inside the compare-and-swap callback on the document value that callback was handed (so it is re-evaluated on every CAS retry against the freshly read document), and Put accepts a client-supplied parent only on the edge where that parent is a leaf; (R2) document sync metadata is committed only through the CAS loop of updateAndReturnDoc / ResyncDocument or through writes that carry a CAS value read earlier (never the constant 0); (R3) the sequence reserved for a write survives CAS retries in variables declared outside the callback, a sequence kept from an earlier attempt is reused only when it is still greater than the document's stored sequence, otherwise a new one is allocated (above the stored one). (R4) the post-commit CAS re-stamp is issued only against the CAS the writer's own commit returned (never a CAS read afterwards), so it cannot overwrite a revision committed in between; (R5) the CAS callback carries nothing from one attempt into the next except the sequence bookkeeping and the function's named results.; (R6, shared with C07-R6) a release of the allocator's remaining window leaves no hand-out reachable before the window is abandoned — a sequence handed to an acknowledged write must not also be published as unused, or the feed drops the write as a duplicate. Not decided: that exactly one concurrent writer wins under every schedule, and that the feed ends up announcing the final revision."
 	c05R1(c, r)
 	c05R2(c, r)
 	c05R3(c, r)
 	c05R4(c, r)
 	c05R5(c, r)
+	c07R6For(c, r, "C05-R6")
 }
 
 func c05R1(c *Ctx, r *Report) {
